@@ -69,7 +69,10 @@ fn supervise(mut child: Child, timeout: Duration) -> Ended {
 	let mut done = false;
 	let ended;
 	loop {
-		match rx.recv_timeout(timeout) {
+		// building the case space (and, on a busy machine, merely getting scheduled) precedes the first case: the
+		// watchdog of a case starts with the first case
+		let wait = if cur == usize::MAX { timeout.max(Duration::from_secs(180)) } else { timeout };
+		match rx.recv_timeout(wait) {
 			Ok(l) => {
 				if let Some(n) = l.strip_prefix("B ") {
 					cur = n.trim().parse().unwrap_or(usize::MAX);
@@ -143,6 +146,7 @@ pub fn run(args: &Args) -> i32 {
 		tier,
 		timeout: Duration::from_millis(args.u64("timeout-ms", 10_000)),
 	});
+	let bounds = Bounds::load(&ca.bounds);
 	let total = space.descs.len();
 	let chunk = args.u64("chunk", 20_000) as usize;
 	let nworkers = args.u64("workers", 6) as usize;
@@ -226,7 +230,7 @@ pub fn run(args: &Args) -> i32 {
 								let mut ev = extra_events.lock().unwrap();
 								ev.push(worker::begin_event(&space, idx, &c));
 								ev.push(json!({"k": "End", "i": idx, "out": out, "consumed": 0, "peak": worker::clamp(refused.unwrap_or(0)), "reads": 0,
-									"maxreq": worker::clamp(refused.unwrap_or(0)), "note": how, "alloc_refused": refused.map(|x| x.to_string()).unwrap_or_default(), "step": step, "gen": c.origin["gen"]}));
+									"maxreq": worker::clamp(refused.unwrap_or(0)), "note": how, "alloc_refused": refused.map(|x| x.to_string()).unwrap_or_default(), "step": step, "gen": c.origin["gen"], "served": []}));
 								extra_bad.lock().unwrap().push(case);
 							}
 							None => {
@@ -314,9 +318,17 @@ pub fn run(args: &Args) -> i32 {
 									s["hp"] = e["hp"].clone();
 									s["hl"] = e["hl"].clone();
 								}
-								if e["wp"].as_u64().unwrap_or(0) > s["wp"].as_u64().unwrap_or(0) {
-									s["wp"] = e["wp"].clone();
-									s["wl"] = e["wl"].clone();
+								// the worst call = the one closest to its own bound
+								let pm = |x: &Value| {
+									let fr = x["wfty"].as_i64().filter(|t| *t >= 0).map(|t| (t as u8, x["wflen"].as_u64().unwrap_or(0)));
+									let b = bounds.of(x["dec"].as_str().unwrap_or(""), Ct::parse(x["ct"].as_str().unwrap_or("")), x["wl"].as_u64().unwrap_or(0),
+										x["wr"].as_bool().unwrap_or(false), fr, x["wc"].as_u64().unwrap_or(0));
+									x["wp"].as_u64().unwrap_or(0) as u128 * 1_000_000 / (b.max(1) as u128)
+								};
+								if pm(&e) > pm(s) {
+									for f in ["wp", "wl", "wr", "wfty", "wflen", "wc"].iter() {
+										s[*f] = e[*f].clone();
+									}
 								}
 							}
 						}
@@ -423,7 +435,8 @@ pub fn run_case_file(space: &Space, bounds: &Bounds, file: &str, out: &str) -> i
 	let o = worker::execute(space, &c);
 	let _ = bounds;
 	w.put(&json!({"k": "End", "i": idx, "out": o.out, "consumed": worker::clamp(o.res.consumed), "peak": worker::clamp(o.peak),
-		"reads": worker::clamp(o.res.reads), "maxreq": worker::clamp(o.maxreq), "note": o.note, "step": o.step, "gen": c.origin["gen"]}));
+		"reads": worker::clamp(o.res.reads), "maxreq": worker::clamp(o.maxreq), "note": o.note, "step": o.step, "gen": c.origin["gen"],
+		"served": worker::served_json(&o.served)}));
 	w.flush();
 	println!("D");
 	0
